@@ -1,0 +1,13 @@
+//go:build verif
+
+package server
+
+// This file is compiled only with `-tags verif` (verification harness in /verif, property C14).
+
+// VerifWithPluginOrder sets config.PluginOrder, so that the harness loads its registered recording plugins through
+// the same path as a configured `plugin_order` (plugins[name](config) in initPluginHooks). Pass it after WithConfig.
+func VerifWithPluginOrder(order ...string) Options {
+	return func(srv *server) {
+		srv.config.PluginOrder = append([]string(nil), order...)
+	}
+}
